@@ -312,9 +312,13 @@ TreeKey(S) == LET s == SortEntries(S) IN
 BlobSpace == { <<>>, <<0>>, <<1>>, <<1, 2>>, <<0, 1, 0>>, <<2, 1>>, <<3>>, <<3, 0, 3>>, <<1, 2, 3>>, <<4>>, <<4, 4>> }
 BlobKey(c) == JoinStr([i \in 1..Len(c) |-> ToString(c[i])], ",")
 
+\* fields a rewriter (see Rewrite below) can be asked to change
+RewriterFields == {"message", "author", "committer", "atime", "ctime", "atz", "ctz", "encoding", "parents"}
+
 \* the harness reads the pools (abstract value of every index) from here, never from a copy
 Pools == [commit |-> CommitPool, tag |-> TagPool, commitFields |-> CommitFields, tagFields |-> TagFields,
-          commitTriples |-> CommitTriples, tagTriples |-> TagTriples]
+          commitTriples |-> CommitTriples, tagTriples |-> TagTriples,
+          rewriterFields |-> SetToSeq(RewriterFields)]
 ASSUME "POOL_FILE" \in DOMAIN IOEnv => JsonSerialize(IOEnv.POOL_FILE, Pools)
 
 \* ------------------------------------------------------------------ enumeration: one state per case, one transition per one-field edit
@@ -349,14 +353,26 @@ Init ==
        /\ ix = <<>> /\ key = BlobKey(case)
        /\ toks = Toks(SerBlob(case)) /\ strict = TRUE
 
-EditField(P, F, Space) ==
-    \E f \in DOMAIN P : \E i \in 1..Len(P[f]) :
+EditAt(P, F, Space, f, i) ==
         /\ i # ix[f]
         /\ ix' = [ix EXCEPT ![f] = i]
         /\ ix' \in Space
         /\ case' = CaseOf(P, ix') /\ key' = KeyStr(F, ix')
         /\ toks' = <<>> /\ strict' = GitStrictOK(kind, case')
         /\ UNCHANGED kind
+EditField(P, F, Space) == \E f \in DOMAIN P : \E i \in 1..Len(P[f]) : EditAt(P, F, Space, f, i)
+
+\* A REWRITER builds a new object from an old one (filter-branch's CommitFilter.process_commit; the same
+\* holds for any code that copies a commit field by field).  Given the identity filter except for one
+\* field f it must produce exactly the case the edit of f produces -- every other field is copied
+\* losslessly, every other byte is reproduced, the new name is the hash of these bytes.  So a rewrite
+\* is the edit transition, for the fields a rewriter can be asked to change; the filter interface
+\* passes a zone as its offset only, so a zone is rewritable between values without the -0000 flag.
+Rewritable(f, c, d) == /\ f \in RewriterFields /\ c.blank
+                       /\ (f \in {"atz", "ctz"} => ~c[f].negutc /\ ~d[f].negutc)
+Rewrite(f, i) == /\ kind = "commit"
+                 /\ EditAt(CommitPool, CommitFields, CommitSpace, f, i)
+                 /\ Rewritable(f, case, case')
 
 EditTree ==
     \E e \in TreeUniverse :
@@ -367,6 +383,7 @@ EditTree ==
 
 Next == /\ Edits
         /\ \/ kind = "commit" /\ EditField(CommitPool, CommitFields, CommitSpace)
+           \/ \E f \in RewriterFields : \E i \in 1..Len(CommitPool[f]) : Rewrite(f, i)
            \/ kind = "tag" /\ EditField(TagPool, TagFields, TagSpace)
            \/ kind = "tree" /\ EditTree
 
